@@ -1564,7 +1564,8 @@ def run(ctx):
                    "3*8192-1..+1 and random small, names with blanks, shell metacharacters, control and non-ASCII bytes "
                    "(no newline, no slash), all 12 mode bits, 1-3 sources given directly or through a sub-path, -p on/off, "
                    "forward and reverse (.host) naming, destination fresh / given as dir, dir/, absolute, new file name; "
-                   "a few cases with an entry of the wrong kind already in the way; plus 2-4 receivers in one process (same "
+                   "a few cases with an entry of the wrong kind already in the way (pinned: several per run, at depth 2-4, "
+                   "compared with Pcp/Deep.lean `dTopFs`/`dTopBad`); plus 2-4 receivers in one process (same "
                    "name list from every host, `.host` names in one directory, on 0..K hosts a name is occupied by a "
                    "directory, input cut at records or at random places); non-trivial = the tree holds >= 1 "
                    "directory and a file >= 8192 bytes; distinct = distinct model input line"}
